@@ -34,6 +34,26 @@ fn one(sink: &mut e1::Sink, is_long: bool, size_usd: u64, size_tokens: u64, cap:
         if pnl > uncapped {
             sink.fail_with("C11/credited_pnl_exceeds_uncapped", || (format!("price {p}: pnl {pnl} > uncapped {uncapped}"), rp()));
         }
+        // exact reference (i128): uncapped = +-(tokens*price - size); a profit is scaled by
+        // capped_pool_pnl / pool_pnl of the whole side when the side's pnl exceeds cap_factor * pool value
+        {
+            let (t, s, pp) = (size_tokens as i128, size_usd as i128, p as i128);
+            let want_unc = if is_long { t * pp - s } else { s - t * pp };
+            let (oi, oit) = ((size_usd + other_oi.0) as i128, (size_tokens + other_oi.1) as i128);
+            let pool_pnl = if is_long { oit * pp - oi } else { oi - oit * pp };
+            let pool_value = if is_long { pool.0 as i128 * 12 } else { pool.1 as i128 };
+            let cap_value = pool_value * cap as i128 / 10_000;
+            let mut want = want_unc;
+            if want_unc > 0 && pool_pnl > cap_value {
+                want = cap_value * want_unc / pool_pnl;
+            }
+            if uncapped as i128 != want_unc {
+                sink.fail_with("C11/uncapped_pnl_wrong_value", || (format!("price {p}: uncapped pnl {uncapped}, exact {want_unc}"), rp()));
+            }
+            if pnl as i128 != want {
+                sink.fail_with("C11/capped_pnl_wrong_value", || (format!("price {p}: pnl {pnl}, exact {want} (uncapped {want_unc}, side pnl {pool_pnl}, cap {cap_value})"), rp()));
+            }
+        }
         if dtok != size_tokens {
             sink.fail_with("C11/full_close_tokens", || (format!("full close realises {dtok} of {size_tokens} tokens"), rp()));
         }
